@@ -1,4 +1,5 @@
 import GeoVerif.Props.C01
+import GeoVerif.Props.C09
 
 /-!
 # C02 — every file the library writes is a structurally valid geoh5 file
@@ -83,5 +84,445 @@ theorem wf_after_history (t : Tree) (ops : List Op) (hn : t.uids.Nodup) :
 /-- non-vacuity: the example tree of C01 satisfies the hypotheses, and its file has the five nodes -/
 example : exTree.uids.Nodup ∧ ((fileOf exTree).nodes.map (·.ent.uid)) = [1, 2, 3, 4, 5]
     ∧ (fileOf exTree).root = some 1 := by decide
+
+
+/-! ### the executable check accepts every reachable file image -/
+
+/-- `s` has a child entry for `u` -/
+def linksTo (u : Nat) (s : Tree) : Bool := s.kids.any (·.ent.uid == u)
+
+def rootUids (ks : List Tree) : List Nat := ks.map (·.ent.uid)
+
+theorem rootUids_sublist : ∀ ks : List Tree, (rootUids ks).Sublist (uidsL ks)
+  | [] => by simp [rootUids]
+  | k :: ks => by
+    cases k with
+    | node e kk =>
+      simp only [rootUids, List.map_cons, uidsL_cons, uids_node, Tree.ent, List.cons_append]
+      exact List.Sublist.cons_cons _ ((rootUids_sublist ks).trans (List.sublist_append_right _ _))
+
+theorem any_eq_count (l : List Nat) (u : Nat) (hn : l.Nodup) : (if l.any (· == u) then 1 else 0) = l.count u := by
+  induction l with
+  | nil => simp
+  | cons x xs ih =>
+    have hx : x ∉ xs := (List.nodup_cons.mp hn).1
+    have hn' := (List.nodup_cons.mp hn).2
+    by_cases h : x = u
+    · subst h
+      have : xs.count x = 0 := List.count_eq_zero.mpr hx
+      simp [this]
+    · have ih' := ih hn'
+      simp only [List.any_cons, List.count_cons, beq_iff_eq, h, Bool.false_or, if_false, Nat.add_zero]
+      simpa [h] using ih'
+
+mutual
+/-- with distinct identifiers: the number of stored nodes that link to `u`, plus one if `u` is the root, is the number of
+    entities called `u` -/
+theorem parents_count (u : Nat) : ∀ (t : Tree), t.uids.Nodup →
+    t.subs.countP (linksTo u) + (if t.ent.uid = u then 1 else 0) = t.uids.count u
+  | .node e ks, hn => by
+    simp only [uids_node, List.nodup_cons] at hn
+    have hL := parents_countL u ks hn.2
+    have hr : (if (rootUids ks).any (· == u) then 1 else 0) = (rootUids ks).count u :=
+      any_eq_count _ u ((rootUids_sublist ks).nodup hn.2)
+    have hlink : linksTo u (.node e ks) = (rootUids ks).any (· == u) := by
+      simp [linksTo, Tree.kids, rootUids, List.any_map, Function.comp_def]
+    simp only [subs_node, List.countP_cons, hlink, uids_node, List.count_cons, Tree.ent, beq_iff_eq]
+    split <;> split <;> simp_all <;> omega
+theorem parents_countL (u : Nat) : ∀ (ks : List Tree), (uidsL ks).Nodup →
+    (subsL ks).countP (linksTo u) + (rootUids ks).count u = (uidsL ks).count u
+  | [], _ => by simp [rootUids]
+  | k :: ks, hn => by
+    simp only [uidsL_cons] at hn
+    have hk := parents_count u k (List.nodup_append.mp hn).1
+    have hks := parents_countL u ks (List.nodup_append.mp hn).2.1
+    simp only [rootUids] at hks
+    simp only [subsL_cons, List.countP_append, rootUids, List.map_cons, List.count_cons, uidsL_cons, List.count_append,
+      beq_iff_eq]
+    split at hk <;> simp_all <;> omega
+end
+
+theorem parentsOf_length (t : Tree) (u : Nat) : (parentsOf (fileOf t) u).length = t.subs.countP (linksTo u) := by
+  simp only [parentsOf, fileOf, Tree.flat, List.length_map, List.filter_map, List.countP_eq_length_filter]
+  congr 1
+  apply List.filter_congr
+  intro s _
+  simp [Function.comp_def, toNode, linksL, linksTo, List.any_map]
+
+/-- every property group lists only data that are children of its own object -/
+def PGok (t : Tree) : Prop :=
+  ∀ s ∈ t.subs, ∀ g ∈ s.ent.pgs, ∀ d ∈ g.props, (Kind.data, d) ∈ linksL s.kids
+
+/-- **the executable validity check accepts the file image of every tree** with distinct identifiers and well-placed
+    property groups: one root that is stored, no identifier twice, every child entry resolves to a stored node of that kind,
+    the root has no parent and every other node exactly one, property groups list children, everything is reachable.
+    `wfCheck` is the same function the driver evaluates on raw snapshots of the files geoh5py writes. -/
+theorem wfCheck_fileOf (t : Tree) (hn : t.uids.Nodup) (hpg : PGok t) : wfCheck (fileOf t) = true := by
+  have hroot := file_root t hn
+  have hkeys := file_keys t
+  simp only [wfCheck, hroot.1, Bool.and_eq_true, List.all_eq_true, decide_eq_true_eq]
+  refine ⟨⟨⟨⟨⟨?_, ?_⟩, ?_⟩, ?_⟩, ?_⟩, ?_⟩
+  · exact file_keys_nodup t hn
+  · rw [hroot.2]; rfl
+  · intro n hmem l hl
+    obtain ⟨c, hc, hk, _⟩ := links_stored t hn n hmem l hl
+    simp [hc, hk]
+  · intro n hmem
+    have hmem' := hmem
+    simp only [fileOf, Tree.flat, List.mem_map] at hmem'
+    obtain ⟨s, hs, rfl⟩ := hmem'
+    have hcount := parents_count (toNode s).ent.uid t hn
+    have hin : (toNode s).ent.uid ∈ t.uids := by
+      simp only [Tree.uids, List.mem_map]; exact ⟨s, hs, rfl⟩
+    have h1 : t.uids.count (toNode s).ent.uid = 1 := by rw [List.Nodup.count hn]; simp [hin]
+    rw [h1] at hcount
+    by_cases hr : (toNode s).ent.uid = t.ent.uid
+    · have : t.subs.countP (linksTo (toNode s).ent.uid) = 0 := by simp [hr] at hcount ⊢; omega
+      have hl := parentsOf_length t (toNode s).ent.uid
+      rw [this] at hl
+      simp only [hr, beq_self_eq_true, if_true]
+      rw [hr] at hl
+      simp [List.eq_nil_of_length_eq_zero hl]
+    · have hne : ¬ (t.ent.uid = (toNode s).ent.uid) := fun e => hr e.symm
+      have : t.subs.countP (linksTo (toNode s).ent.uid) = 1 := by simp [hne] at hcount; omega
+      simp [hr, parentsOf_length, this]
+  · intro n hmem g hg d hd
+    simp only [fileOf, Tree.flat, List.mem_map] at hmem
+    obtain ⟨s, hs, rfl⟩ := hmem
+    simpa [toNode] using hpg s hs g hg d hd
+  · obtain ⟨t', ht', hlen⟩ := all_reachable t hn
+    simp [ht', hlen]
+
+example : wfCheck (fileOf exTree) = true := wfCheck_fileOf exTree (by decide) (by unfold PGok; decide)
+
+/-! ### the property-group clause is an invariant of every operation -/
+
+/-- the property-group clause on stored nodes -/
+def NodeOk (n : Node) : Prop := ∀ g ∈ n.ent.pgs, ∀ d ∈ g.props, (Kind.data, d) ∈ n.links
+
+theorem PGok_iff (t : Tree) : PGok t ↔ ∀ n ∈ t.flat, NodeOk n := by
+  simp only [PGok, Tree.flat, List.mem_map, NodeOk]
+  constructor
+  · rintro h n ⟨s, hs, rfl⟩; exact h s hs
+  · intro h s hs; exact h (toNode s) ⟨s, hs, rfl⟩
+
+mutual
+theorem update_frame_back (f : Ent → Ent) (hf : ∀ e, (f e).uid = e.uid ∧ (f e).kind = e.kind) :
+    ∀ (t : Tree) (u : Nat) (n' : Node), n' ∈ (t.update f u).flat →
+      ∃ n ∈ t.flat, n'.links = n.links ∧ (n'.ent = n.ent ∨ (n.ent.uid = u ∧ n'.ent = f n.ent))
+  | .node e ks, u, n', h => by
+    simp only [Tree.update] at h
+    split at h
+    · rename_i he
+      simp only [Tree.flat, subs_node, List.map_cons, List.mem_cons] at h
+      rcases h with rfl | h
+      · exact ⟨toNode (.node e ks), by simp [Tree.flat], rfl, Or.inr ⟨he, rfl⟩⟩
+      · exact ⟨n', by simp only [Tree.flat, subs_node, List.map_cons, List.mem_cons]; right; exact h, rfl, Or.inl rfl⟩
+    · simp only [Tree.flat, subs_node, List.map_cons, List.mem_cons] at h
+      rcases h with rfl | h
+      · refine ⟨toNode (.node e ks), by simp [Tree.flat], ?_, Or.inl rfl⟩
+        simp only [toNode, Tree.kids]
+        exact linksL_updateL f hf ks u
+      · obtain ⟨n, hn, h1, h2⟩ := updateL_frame_back f hf ks u n' h
+        exact ⟨n, by simp only [Tree.flat, subs_node, List.map_cons, List.mem_cons]; right; exact hn, h1, h2⟩
+theorem updateL_frame_back (f : Ent → Ent) (hf : ∀ e, (f e).uid = e.uid ∧ (f e).kind = e.kind) :
+    ∀ (ts : List Tree) (u : Nat) (n' : Node), n' ∈ (subsL (updateL f ts u)).map toNode →
+      ∃ n ∈ (subsL ts).map toNode, n'.links = n.links ∧ (n'.ent = n.ent ∨ (n.ent.uid = u ∧ n'.ent = f n.ent))
+  | [], _, n', h => by simp [updateL] at h
+  | t :: ts, u, n', h => by
+    simp only [updateL, subsL_cons, List.map_append, List.mem_append] at h
+    rcases h with h | h
+    · obtain ⟨n, hn, h1, h2⟩ := update_frame_back f hf t u n' (by simpa [Tree.flat] using h)
+      exact ⟨n, by simp only [subsL_cons, List.map_append, List.mem_append]; left; simpa [Tree.flat] using hn, h1, h2⟩
+    · obtain ⟨n, hn, h1, h2⟩ := updateL_frame_back f hf ts u n' h
+      exact ⟨n, by simp only [subsL_cons, List.map_append, List.mem_append]; right; exact hn, h1, h2⟩
+end
+
+/-- an assignment that does not touch the property groups keeps the clause -/
+theorem PGok_update (f : Ent → Ent) (hf : ∀ e, (f e).uid = e.uid ∧ (f e).kind = e.kind) (hp : ∀ e, (f e).pgs = e.pgs)
+    (t : Tree) (u : Nat) (h : PGok t) : PGok (t.update f u) := by
+  rw [PGok_iff] at h ⊢
+  intro n' hn'
+  obtain ⟨n, hn, hl, he⟩ := update_frame_back f hf t u n' hn'
+  have hpgs : n'.ent.pgs = n.ent.pgs := by
+    rcases he with he | ⟨_, he⟩
+    · rw [he]
+    · rw [he, hp]
+  intro g hg d hd
+  rw [hl]; rw [hpgs] at hg
+  exact h n hn g hg d hd
+
+theorem node_unique (t : Tree) (hn : t.uids.Nodup) (n : Node) (hmem : n ∈ t.flat) (s : Tree) (hs : s ∈ t.subs)
+    (hu : n.ent.uid = s.ent.uid) : n = toNode s := by
+  simp only [Tree.flat, List.mem_map] at hmem
+  obtain ⟨s', hs', rfl⟩ := hmem
+  have h1 := find_fileOf t s' hs' hn
+  have h2 := find_fileOf t s hs hn
+  have : (toNode s').ent.uid = s'.ent.uid := rfl
+  rw [this] at hu
+  rw [hu] at h1
+  exact Option.some.inj (h1.symm.trans h2)
+
+theorem PGok_pgDrop (t : Tree) (o g : Nat) (h : PGok t) :
+    PGok (t.update (fun e => { e with pgs := e.pgs.filter (·.uid != g) }) o) := by
+  rw [PGok_iff] at h ⊢
+  intro n' hn'
+  obtain ⟨n, hn, hl, he⟩ := update_frame_back (fun e => { e with pgs := e.pgs.filter (·.uid != g) })
+    (fun e => ⟨rfl, rfl⟩) t o n' hn'
+  intro g' hg' d hd
+  rw [hl]
+  rcases he with he | ⟨_, he⟩
+  · rw [he] at hg'; exact h n hn g' hg' d hd
+  · rw [he] at hg'
+    exact h n hn g' (List.mem_filter.mp hg').1 d hd
+
+theorem PGok_pgSet (t : Tree) (hn : t.uids.Nodup) (o : Nat) (g : PG) (s : Tree) (hs : t.findSub o = some s)
+    (hg : g.props.all (fun d => (linksL s.kids).contains (Kind.data, d)) = true) (h : PGok t) :
+    PGok (t.update (fun e => { e with pgs := if e.pgs.any (·.uid == g.uid)
+                                              then e.pgs.map fun x => if x.uid == g.uid then g else x
+                                              else e.pgs ++ [g] }) o) := by
+  obtain ⟨hsm, hsu⟩ := findSub_mem t o s hs
+  rw [PGok_iff] at h ⊢
+  intro n' hn'
+  obtain ⟨n, hnm, hl, he⟩ := update_frame_back (fun e => { e with pgs := if e.pgs.any (·.uid == g.uid)
+      then (e.pgs.map fun x => if x.uid == g.uid then g else x) else e.pgs ++ [g] }) (fun e => ⟨rfl, rfl⟩) t o n' hn'
+  intro g' hg' d hd
+  rw [hl]
+  rcases he with he | ⟨hu, he⟩
+  · rw [he] at hg'; exact h n hnm g' hg' d hd
+  · have hnode : n = toNode s := node_unique t hn n hnm s hsm (by rw [hu, hsu])
+    have hnew : ∀ d ∈ g.props, (Kind.data, d) ∈ n.links := by
+      intro d hd
+      have := List.all_eq_true.mp hg d hd
+      rw [hnode]; simpa [toNode] using this
+    rw [he] at hg'
+    split at hg'
+    · obtain ⟨x, hx, hxe⟩ := List.mem_map.mp hg'
+      split at hxe
+      · rw [← hxe] at hd; exact hnew d hd
+      · rw [← hxe] at hd; exact h n hnm x hx d hd
+    · rcases List.mem_append.mp hg' with hg' | hg'
+      · exact h n hnm g' hg' d hd
+      · rw [List.mem_singleton.mp hg'] at hd; exact hnew d hd
+
+theorem PGok_insert (t c : Tree) (p : Nat) (h : PGok t) (hc : PGok c) : PGok (t.insert p c) := by
+  rw [PGok_iff] at h hc ⊢
+  intro n' hn'
+  rcases insert_frame_back c t p n' hn' with hn' | ⟨n, hn, he, hl⟩
+  · exact hc n' hn'
+  · intro g hg d hd
+    rw [he] at hg
+    have := h n hn g hg d hd
+    rcases hl with hl | ⟨_, hl⟩
+    · rw [hl]; exact this
+    · rw [hl]; exact List.mem_append_left _ this
+
+theorem PGok_sub (t s : Tree) (hs : s ∈ t.subs) (h : PGok t) : PGok s :=
+  fun x hx => h x (subs_trans t s hs x hx)
+
+theorem PGok_leaf (e : Ent) (he : e.pgs.isEmpty = true) : PGok (.node e []) := by
+  intro s hs g hg
+  simp only [subs_node, subsL_nil, List.mem_singleton] at hs
+  subst hs
+  simp [Tree.ent, List.isEmpty_iff.mp he] at hg
+
+theorem PGok_erase_clean (t : Tree) (u : Nat) (gone : List Nat) (hu : u ∈ gone) (h : PGok t) :
+    PGok ((t.erase u).mapEnts (cleanPGs gone)) := by
+  rw [PGok_iff] at h ⊢
+  intro n' hn'
+  obtain ⟨m, hm, e1, l1⟩ := mapEnts_frame _ (cleanPGs_keeps gone) _ n' hn'
+  obtain ⟨n, hn, e2, l2⟩ := erase_frame u t m hm
+  intro g' hg' d hd
+  rw [e1, e2] at hg'
+  simp only [cleanPGs, List.mem_filter, List.mem_map] at hg'
+  obtain ⟨⟨g, hg, rfl⟩, _⟩ := hg'
+  simp only [cleanPG, List.mem_filter] at hd
+  have hdl := h n hn g hg d hd.1
+  have hne : d ≠ u := by
+    intro e; subst e
+    simp [hu] at hd
+  rw [l1, l2]
+  simp only [dropLink, List.mem_filter]
+  exact ⟨hdl, by simpa using hne⟩
+
+def rn (m : List (Nat × Nat)) (u : Nat) : Nat := (m.lookup u).getD u
+
+theorem linksL_renameL (m : List (Nat × Nat)) : ∀ ks : List Tree,
+    linksL (mapEntsL (renameEnt m) ks) = (linksL ks).map fun l => (l.1, rn m l.2)
+  | [] => by simp [mapEntsL, linksL]
+  | k :: ks => by
+    have ih := linksL_renameL m ks
+    simp only [linksL] at ih ⊢
+    cases k with
+    | node e kk =>
+      simp only [mapEntsL, Tree.mapEnts, List.map_cons, ih, List.cons.injEq, and_true]
+      simp [Tree.ent, renameEnt, rn]
+
+mutual
+theorem renameT_frame (m : List (Nat × Nat)) : ∀ (t : Tree) (n' : Node), n' ∈ (t.mapEnts (renameEnt m)).flat →
+    ∃ n ∈ t.flat, n'.ent = renameEnt m n.ent ∧ n'.links = n.links.map fun l => (l.1, rn m l.2)
+  | .node e ks, n', h => by
+    simp only [Tree.mapEnts, Tree.flat, subs_node, List.map_cons, List.mem_cons] at h
+    rcases h with rfl | h
+    · refine ⟨toNode (.node e ks), by simp [Tree.flat], rfl, ?_⟩
+      simp only [toNode, Tree.kids]
+      exact linksL_renameL m ks
+    · obtain ⟨n, hn, h1, h2⟩ := renameL_frame m ks n' h
+      exact ⟨n, by simp only [Tree.flat, subs_node, List.map_cons, List.mem_cons]; right; exact hn, h1, h2⟩
+theorem renameL_frame (m : List (Nat × Nat)) : ∀ (ts : List Tree) (n' : Node),
+    n' ∈ (subsL (mapEntsL (renameEnt m) ts)).map toNode →
+    ∃ n ∈ (subsL ts).map toNode, n'.ent = renameEnt m n.ent ∧ n'.links = n.links.map fun l => (l.1, rn m l.2)
+  | [], n', h => by simp [mapEntsL] at h
+  | t :: ts, n', h => by
+    simp only [mapEntsL, subsL_cons, List.map_append, List.mem_append] at h
+    rcases h with h | h
+    · obtain ⟨n, hn, h1, h2⟩ := renameT_frame m t n' (by simpa [Tree.flat] using h)
+      exact ⟨n, by simp only [subsL_cons, List.map_append, List.mem_append]; left; simpa [Tree.flat] using hn, h1, h2⟩
+    · obtain ⟨n, hn, h1, h2⟩ := renameL_frame m ts n' h
+      exact ⟨n, by simp only [subsL_cons, List.map_append, List.mem_append]; right; exact hn, h1, h2⟩
+end
+
+theorem PGok_rename (m : List (Nat × Nat)) (s : Tree) (h : PGok s) : PGok (s.mapEnts (renameEnt m)) := by
+  rw [PGok_iff] at h ⊢
+  intro n' hn'
+  obtain ⟨n, hn, he, hl⟩ := renameT_frame m s n' hn'
+  intro g' hg' d' hd'
+  rw [he] at hg'
+  simp only [renameEnt, List.mem_map] at hg'
+  obtain ⟨g, hg, rfl⟩ := hg'
+  simp only [List.mem_map] at hd'
+  obtain ⟨d, hd, rfl⟩ := hd'
+  rw [hl]
+  exact List.mem_map.mpr ⟨(Kind.data, d), h n hn g hg d hd, rfl⟩
+
+/-- **the property-group clause is kept by every operation** -/
+theorem PGok_step (t : Tree) (hn : t.uids.Nodup) (h : PGok t) (op : Op) : PGok (step t op).1 := by
+  cases op with
+  | create p e =>
+    simp only [step]
+    split
+    · exact h
+    · split
+      · exact h
+      · rename_i he
+        split
+        · exact h
+        · exact PGok_insert t _ p h (PGok_leaf e (by simpa using he))
+  | setAttr u k v =>
+    simp only [step]; split
+    · dsimp only; refine PGok_update _ ?_ ?_ t u h <;> intro e <;> first | exact ⟨rfl, rfl⟩ | rfl
+    · exact h
+  | setDset u k v =>
+    simp only [step]; split
+    · dsimp only; refine PGok_update _ ?_ ?_ t u h <;> intro e <;> first | exact ⟨rfl, rfl⟩ | rfl
+    · exact h
+  | rename u n =>
+    simp only [step]; split
+    · dsimp only; refine PGok_update _ ?_ ?_ t u h <;> intro e <;> first | exact ⟨rfl, rfl⟩ | rfl
+    · exact h
+  | setAllowDelete u b =>
+    simp only [step]; split
+    · dsimp only; refine PGok_update _ ?_ ?_ t u h <;> intro e <;> first | exact ⟨rfl, rfl⟩ | rfl
+    · exact h
+  | setTyp u ty =>
+    simp only [step]; split
+    · dsimp only; refine PGok_update _ ?_ ?_ t u h <;> intro e <;> first | exact ⟨rfl, rfl⟩ | rfl
+    · exact h
+  | move u p =>
+    simp only [step]
+    cases hs : t.findSub u with
+    | none => exact h
+    | some s =>
+      simp only
+      split
+      · exact h
+      · split
+        · exact h
+        · obtain ⟨hsm, _⟩ := findSub_mem t u s hs
+          -- erase, insert the subtree back, scrub `u`
+          rw [PGok_iff]
+          intro n' hn'
+          obtain ⟨k, hk, e1, l1⟩ := mapEnts_frame _ (cleanPGs_keeps [u]) _ n' hn'
+          have hmid : ∀ x ∈ ((t.erase u).insert p s).flat, ∀ g ∈ x.ent.pgs, ∀ d ∈ g.props, d ≠ u → (Kind.data, d) ∈ x.links := by
+            intro x hx g hg d hd hne
+            rcases insert_frame_back s (t.erase u) p x hx with hx | ⟨y, hy, e2, l2⟩
+            · exact (PGok_iff s).mp (PGok_sub t s hsm h) x hx g hg d hd
+            · obtain ⟨z, hz, e3, l3⟩ := erase_frame u t y hy
+              rw [e2, e3] at hg
+              have hz' := (PGok_iff t).mp h z hz g hg d hd
+              have hdrop : (Kind.data, d) ∈ dropLink u z.links := by
+                simp only [dropLink, List.mem_filter]; exact ⟨hz', by simpa using hne⟩
+              rcases l2 with l2 | ⟨_, l2⟩
+              · rw [l2, l3]; exact hdrop
+              · rw [l2, l3]; exact List.mem_append_left _ hdrop
+          intro g' hg' d hd
+          rw [e1] at hg'
+          simp only [cleanPGs, List.mem_filter, List.mem_map] at hg'
+          obtain ⟨⟨g, hg, rfl⟩, _⟩ := hg'
+          simp only [cleanPG, List.mem_filter] at hd
+          rw [l1]
+          exact hmid k hk g hg d hd.1 (by intro e; subst e; simp at hd)
+  | remove u =>
+    simp only [step]
+    cases hs : t.findSub u with
+    | none => exact h
+    | some s =>
+      simp only
+      split
+      · exact h
+      · obtain ⟨_, hsu⟩ := findSub_mem t u s hs
+        exact PGok_erase_clean t u s.uids (by rw [← hsu]; exact root_mem_uids s) h
+  | detach u =>
+    simp only [step]
+    cases hs : t.findSub u with
+    | none => exact h
+    | some s =>
+      simp only
+      split
+      · exact h
+      · obtain ⟨_, hsu⟩ := findSub_mem t u s hs
+        exact PGok_erase_clean t u s.uids (by rw [← hsu]; exact root_mem_uids s) h
+  | copy u p m =>
+    simp only [step]
+    cases hs : t.findSub u with
+    | none => exact h
+    | some s =>
+      simp only
+      obtain ⟨hsm, _⟩ := findSub_mem t u s hs
+      split
+      · exact h
+      · split
+        · exact h
+        · exact PGok_insert t _ p h (PGok_rename m s (PGok_sub t s hsm h))
+  | pgSet o g =>
+    simp only [step]
+    cases hs : t.findSub o with
+    | none => exact h
+    | some s =>
+      simp only
+      split
+      · exact h
+      · rename_i hg
+        exact PGok_pgSet t hn o g s hs (by simpa using hg) h
+  | pgDrop o g =>
+    simp only [step]; split
+    · dsimp only; exact PGok_pgDrop t o g h
+    · exact h
+
+theorem PGok_run (t : Tree) (hn : t.uids.Nodup) (h : PGok t) : ∀ ops : List Op, PGok (run t ops) ∧ (run t ops).uids.Nodup := by
+  intro ops
+  induction ops generalizing t with
+  | nil => exact ⟨h, hn⟩
+  | cons op rest ih =>
+    simp only [run, List.foldl_cons]
+    exact ih (step t op).1 (step_nodup t op hn) (PGok_step t hn h op)
+
+/-- **C02 for every history**: whatever sequence of operations is applied to a valid workspace, the file image passes the
+    complete executable validity check — the one that also judges the raw snapshots of the files geoh5py writes. -/
+theorem wf_run (t : Tree) (hn : t.uids.Nodup) (h : PGok t) (ops : List Op) : wfCheck (fileOf (run t ops)) = true :=
+  wfCheck_fileOf _ (PGok_run t hn h ops).2 (PGok_run t hn h ops).1
+
+example : wfCheck (fileOf (run exTree [.move 3 1, .remove 2, .rename 3 "x"])) = true :=
+  wf_run exTree (by decide) (by unfold PGok; decide) _
 
 end GeoVerif.Ws
